@@ -1102,3 +1102,107 @@ Proof.
   - cbn [snd]. symmetry. apply nth_error_nth. now rewrite nth_error_map, E.
   - apply nth_error_None in E. lia.
 Qed.
+
+(* ------------------------------------------------------------------ slice_stack: Slice_Arg clamps into [0, n] *)
+Definition norm_arg (n a : Z) : Z := Z.max 0 (Z.min n (if a <? 0 then n + a else a)).
+Definition slice_range (n : Z) (args : list (option Z)) : rng :=
+  let st a := match a with None => 0 | Some x => norm_arg n x end in
+  let sp b := match b with None => n | Some x => norm_arg n x end in
+  match args with
+  | [] => mkRng 0 n 1
+  | [b] => mkRng 0 (sp b) 1
+  | [a; b] => mkRng (st a) (sp b) 1
+  | a :: b :: c :: _ => mkRng (st a) (sp b) (match c with None => 1 | Some x => x end)
+  end.
+
+Lemma slice_arg_clamp part n a : (part <= 1)%nat -> 0 <= n < box -> - box < a < box ->
+  slice_arg R part n (Some a) = norm_arg n a.
+Proof.
+  intros Hp Hn Ha. unfold slice_arg, norm_arg. cbn [slice_arg_signed repaired].
+  destruct part as [|[|part]]; [| |lia]; unfold box in *.
+  all: destruct (Z.ltb_spec a 0); [rewrite wrap64_id by (unfold two63; lia)|]; zb; try lia;
+    repeat match goal with H : context [?x <? ?y] |- _ => destruct (Z.ltb_spec x y) end; lia.
+Qed.
+
+Lemma mk_slice_ok u n args : it_len R u = OVal n -> 0 <= n < box -> (length args <= 3)%nat ->
+  Forall (fun a => match a with Some x => - box < x < box | None => True end) args ->
+  mk_slice R u args = OVal (ISlice u (slice_range n args)).
+Proof.
+  intros Hl Hn Hlen Hall. unfold mk_slice. rewrite Hl. cbn [bind].
+  destruct args as [|a [|b [|c [|d rest]]]]; cbn [length] in Hlen; try lia; cbn [slice_range].
+  - reflexivity.
+  - inversion Hall; subst. destruct a; [rewrite slice_arg_clamp by auto|]; reflexivity.
+  - inversion Hall as [|? ? Ha Hr]; subst. inversion Hr as [|? ? Hb _]; subst.
+    destruct a; destruct b; repeat rewrite slice_arg_clamp by auto; reflexivity.
+  - inversion Hall as [|? ? Ha Hr]; subst. inversion Hr as [|? ? Hb Hr2]; subst.
+    destruct a; destruct b; destruct c; repeat rewrite slice_arg_clamp by auto; reflexivity.
+Qed.
+
+Lemma slice_range_ok n args : 0 <= n < box ->
+  match args with
+  | _ :: _ :: Some c :: _ => - box < c < box /\ c <> 0
+  | _ => True
+  end -> slice_ok (slice_range n args) n.
+Proof.
+  intros Hn Hc. unfold slice_ok, in_box, slice_range, norm_arg.
+  destruct args as [|a [|b [|c rest]]]; cbn [r_start r_stop r_step].
+  1-3: try destruct a; try destruct b; unfold box in *; zb; lia.
+  destruct a; destruct b; destruct c; unfold box in *; zb; lia.
+Qed.
+
+(* ------------------------------------------------------------------ the pre-repair variants are refuted *)
+Definition pre_D10 : rules := mkRules true false true true true true true true true.
+Definition pre_D11len : rules := mkRules true true false true true true true true true.
+Definition pre_D11last : rules := mkRules true true true false true true true true true.
+Definition pre_D11get : rules := mkRules true true true true false true true true true.
+Definition pre_D12arg : rules := mkRules true true true true true false true true true.
+Definition pre_D12walk : rules := mkRules true true true true true true false true true.
+Definition pre_F4 : rules := mkRules true true true true true true true false true.
+Definition vi (l : list Z) := map VInt l.
+
+Lemma tuple_last_refuted : it_start pre_D10 5 Bwd (ITuple []) = OCrash.
+Proof. reflexivity. Qed.
+
+Lemma range_len_refuted :
+  range_len pre_D11len (mkRng 0 0 2) = 1 /\ range_len pre_D11len (mkRng 5 0 1) = -5 /\
+  fst (walk pre_D11len 5 Fwd 9 (IRange (mkRng 0 0 2))) = [].
+Proof. vm_compute. auto. Qed.
+
+Lemma range_last_refuted :
+  walk pre_D11last 5 Fwd 9 (IRange (mkRng 0 10 4)) = (vi [0; 4; 8], WDone) /\
+  walk pre_D11last 5 Bwd 9 (IRange (mkRng 0 10 4)) = (vi [9; 5; 1], WDone).
+Proof. vm_compute. auto. Qed.
+
+Lemma range_get_refuted :
+  range_get pre_D11get (mkRng 0 10 1) (-11) = OVal (-1) /\
+  range_get pre_D11get (mkRng 0 10 2) 9223372036854775807 = OVal (-2).
+Proof. vm_compute. auto. Qed.
+
+Lemma slice_arg_refuted : slice_arg pre_D12arg 0 3 (Some (-100)) = 3.
+Proof. vm_compute. reflexivity. Qed.
+
+Lemma slice_walk_refuted :
+  walk pre_D12walk 5 Fwd 9 (ISlice (IArray (vi [1; 2; 3; 4; 5; 6])) (mkRng 0 2 1)) = (vi [1; 2; 3; 4; 5; 6], WDone) /\
+  snd (walk pre_D12walk 5 Fwd 9 (ISlice (IArray (vi [1; 2; 3; 4; 5; 6])) (mkRng 0 6 4))) = WCrash.
+Proof. vm_compute. auto. Qed.
+
+Lemma zip_last_refuted :
+  walk pre_F4 5 Bwd 9 (IZip [IArray (vi [1; 2; 3]); IList (vi [7; 8])]) =
+  ([VTup (vi [3; 8]); VTup (vi [2; 7])], WDone).
+Proof. vm_compute. reflexivity. Qed.
+
+(* F3 (open finding): a Tuple holding the same object twice never finishes its forward walk *)
+Lemma tuple_repeated_pointer_refuted : forall f cut x y z,
+  snd (walk R f Fwd cut (ITuple [(0%nat, x); (1%nat, y); (0%nat, x); (2%nat, z)])) = WRunaway.
+Proof.
+  intros f cut x y z. unfold walk. cbn [it_start tup_start].
+  set (t := ITuple [(0%nat, x); (1%nat, y); (0%nat, x); (2%nat, z)]).
+  assert (forall cut acc, snd (walk_loop R f Fwd t cut (Some (CObj 0)) acc) = WRunaway /\
+                          snd (walk_loop R f Fwd t cut (Some (CObj 1)) acc) = WRunaway) as H.
+  { induction cut0 as [|c IH]; intros acc; [split; reflexivity|]. split.
+    - cbn [walk_loop]. change (cur_val t (CObj 0)) with (OVal x).
+      change (it_step R f Fwd t (CObj 0)) with (@OVal (option cur) (Some (CObj 1))). apply IH.
+    - cbn [walk_loop]. change (cur_val t (CObj 1)) with (OVal y).
+      change (it_step R f Fwd t (CObj 1)) with (@OVal (option cur) (Some (CObj 0))). apply IH. }
+  apply H.
+Qed.
